@@ -1,5 +1,5 @@
 (* Lemmas about the path functions of XRef/Path.v. *)
-From Coq Require Import List NArith Bool Lia.
+From Coq Require Import List NArith Bool Lia PeanoNat.
 From MV Require Import Base.PyStr.
 From MV Require Import XRef.Path.
 Import ListNotations.
@@ -286,54 +286,156 @@ Proof.
   rewrite Ej. cbn [startswith s_slash]. apply N.eqb_neq in Hx. rewrite N.eqb_sym, Hx. reflexivity.
 Qed.
 
+Lemma split_last_cons x y r :
+  split_last (x :: y :: r) =
+  match split_last (y :: r) with Some (i, z) => Some (x :: i, z) | None => None end.
+Proof. reflexivity. Qed.
+
+Lemma split_last_app l x : split_last (l ++ [x]) = Some (l, x).
+Proof.
+  induction l as [|y l IH]; [reflexivity|].
+  destruct l as [|y2 l]; [reflexivity|].
+  change ((y :: y2 :: l) ++ [x]) with (y :: y2 :: (l ++ [x])).
+  rewrite split_last_cons. change (y2 :: l ++ [x]) with ((y2 :: l) ++ [x]). rewrite IH. reflexivity.
+Qed.
+
+
+(* The path of a page URI: directory segments, then a last segment that is a file name
+   (html builder: "one.html") or empty (dirhtml builder: "a/one/", "" for the root index). *)
+Definition uri_ok (l : list str) : Prop :=
+  exists d z, l = d ++ [z] /\ Forall useg_ok d /\ (z = [] \/ useg_ok z).
+
+Lemma uri_ok_noslash l : uri_ok l -> Forall (fun s => ~ In c_slash s) l.
+Proof.
+  intros (d & z & E & Hd & Hz). subst. apply Forall_app. split; [apply useg_noslash; assumption|].
+  constructor; [|constructor]. destruct Hz as [Hz|[(_ & _ & _ & Hz) _]]; [subst; intros []|exact Hz].
+Qed.
+
+Lemma uri_ok_nohash l : uri_ok l -> ~ In c_hash (join s_slash l).
+Proof.
+  intros (d & z & E & Hd & Hz) Hin. subst. apply in_join in Hin as [Hin|[s [Hs Hc]]].
+  - cbn in Hin. destruct Hin as [Hin|[]]. discriminate.
+  - apply in_app_or in Hs as [Hs|[Hs|[]]].
+    + rewrite Forall_forall in Hd. destruct (Hd s Hs) as [_ Hn]. contradiction.
+    + subst s. destruct Hz as [Hz|[_ Hz]]; [subst; destruct Hc|contradiction].
+Qed.
+
+Lemma uri_ok_not_abs l : uri_ok l -> startswith (join s_slash l) s_slash = false.
+Proof.
+  intros (d & z & E & Hd & Hz). subst. destruct d as [|p d].
+  - cbn [app join]. destruct Hz as [Hz|[Hz _]]; [subst; reflexivity|].
+    destruct (seg_first_char z Hz) as (x & s' & E & Hx). subst z. cbn [startswith s_slash].
+    apply N.eqb_neq in Hx. rewrite N.eqb_sym, Hx. reflexivity.
+  - inversion Hd as [|? ? [Hp _] _]; subst. destruct (seg_first_char p Hp) as (x & s' & E & Hx).
+    destruct (join_first_char ((p :: d) ++ [z]) x s' (d ++ [z])) as [tl0 Ej]; [rewrite E; reflexivity|].
+    rewrite Ej. cbn [startswith s_slash]. apply N.eqb_neq in Hx. rewrite N.eqb_sym, Hx. reflexivity.
+Qed.
+
+Lemma suffix_of_uri cm t d (z : str) : t <> [] -> cm ++ t = d ++ [z] ->
+  exists t', t = t' ++ [z] /\ d = cm ++ t'.
+Proof.
+  intros Hne E. destruct (exists_last Hne) as (t' & z' & Et). subst t.
+  rewrite app_assoc in E. apply app_inj_tail in E as [E1 E2]. subst. exists t'. split; reflexivity.
+Qed.
+
+Lemma ends_in_dir_last l z : ends_in_dir (l ++ [z]) = is_nil z || str_eqb z s_dot || str_eqb z s_dotdot.
+Proof. unfold ends_in_dir. rewrite split_last_app. reflexivity. Qed.
+
+(* up from [pre ++ mid], down [t'], then the last segment of a URI *)
+Lemma norm_uri_tail pre mid t' z : segs_ok pre -> segs_ok mid -> segs_ok t' -> (z = [] \/ seg_ok z) ->
+  let segs := pre ++ mid ++ repeat s_dotdot (length mid) ++ t' ++ [z] in
+  (if ends_in_dir segs then norm_loop true segs [] ++ [[]] else norm_loop true segs []) = pre ++ t' ++ [z].
+Proof.
+  intros Hp Hm Ht Hz segs.
+  assert (E : norm_loop true segs [] = pre ++ t' ++ (if is_nil z then [] else [z])).
+  { unfold segs. rewrite norm_push_list by assumption. rewrite norm_push_list by assumption.
+    rewrite <- (rev_length mid). rewrite norm_pops by (apply segs_ok_rev; assumption).
+    rewrite app_nil_r.
+    destruct Hz as [Hz|Hz].
+    - subst z. rewrite norm_push_list by assumption. rewrite norm_skip_empty. cbn [norm_loop is_nil].
+      rewrite rev_app_distr, !rev_involutive, app_nil_r. reflexivity.
+    - rewrite norm_push_end by (apply segs_ok_app; split; [assumption|constructor; [assumption|constructor]]).
+      rewrite rev_involutive. destruct z as [|c z]; [destruct Hz as [Hz _]; congruence|]. reflexivity. }
+  replace segs with ((pre ++ mid ++ repeat s_dotdot (length mid) ++ t') ++ [z]) by (unfold segs; rewrite <- !app_assoc; reflexivity).
+  rewrite ends_in_dir_last.
+  replace ((pre ++ mid ++ repeat s_dotdot (length mid) ++ t') ++ [z]) with segs by (unfold segs; rewrite <- !app_assoc; reflexivity).
+  rewrite E. destruct Hz as [Hz|Hz].
+  - subst z. cbn [is_nil orb]. rewrite <- !app_assoc. rewrite app_nil_l. reflexivity.
+  - destruct (seg_ok_eqb z Hz) as (E1 & E2 & E3). rewrite E2, E3.
+    destruct z as [|c z]; [destruct Hz as [Hz _]; congruence|]. cbn [is_nil orb]. reflexivity.
+Qed.
+
 Theorem relative_uri_roundtrip : forall from to : list str,
-  from <> [] -> to <> [] -> Forall useg_ok from -> Forall useg_ok to ->
+  uri_ok from -> uri_ok to ->
   resolve_ref (join s_slash from) (relative_uri (join s_slash from) (join s_slash to))
   = join s_slash to.
 Proof.
-  intros from to Hf Ht Hfo Hto.
+  intros from to Hfo Hto.
+  assert (Hf : from <> []) by (destruct Hfo as (d & z & E & _); subst; destruct d; discriminate).
+  assert (Ht : to <> []) by (destruct Hto as (d & z & E & _); subst; destruct d; discriminate).
+  pose proof (uri_ok_noslash from Hfo) as Hns_from.
+  pose proof (uri_ok_noslash to Hto) as Hns_to.
   unfold relative_uri.
-  rewrite join_not_abs by (auto using useg_segs).
-  rewrite !before_nosep by (apply join_no_hash; assumption).
+  rewrite uri_ok_not_abs by assumption.
+  rewrite !before_nosep by (apply uri_ok_nohash; assumption).
   change s_slash with [c_slash].
-  rewrite !split_join by (auto using useg_noslash).
+  rewrite !split_join by assumption.
   destruct (strip_common_spec from to Hf Ht) as (cm & E1 & E2 & Hb & Htt).
   destruct (strip_common from to) as [b t] eqn:ES. cbn [fst snd] in *.
+  destruct Hfo as (d1 & z1 & Ef & Hd1 & Hz1). destruct Hto as (d2 & z2 & Et & Hd2 & Hz2).
+  rewrite Ef in E1. rewrite Et in E2. symmetry in E1, E2.
+  destruct (suffix_of_uri cm b d1 z1 Hb E1) as (b' & Eb & Ed1).
+  destruct (suffix_of_uri cm t d2 z2 Htt E2) as (t' & Ett & Ed2).
+  assert (Hcm : segs_ok cm). { apply useg_segs. rewrite Ed1 in Hd1. apply Forall_app in Hd1. tauto. }
+  assert (Hb' : segs_ok b'). { apply useg_segs. rewrite Ed1 in Hd1. apply Forall_app in Hd1. tauto. }
+  assert (Ht' : segs_ok t'). { apply useg_segs. rewrite Ed2 in Hd2. apply Forall_app in Hd2. tauto. }
+  assert (Hz2' : z2 = [] \/ seg_ok z2) by (destruct Hz2 as [H|[H _]]; auto).
+  assert (Efrom : from = cm ++ b' ++ [z1]) by (rewrite Ef, Ed1, <- app_assoc; reflexivity).
+  assert (Eto : to = cm ++ t' ++ [z2]) by (rewrite Et, Ed2, <- app_assoc; reflexivity).
+  assert (Hsplit_from : removelast from = cm ++ b').
+  { rewrite Efrom. rewrite app_assoc. apply removelast_last. }
   destruct (list_str_eqb b t) eqn:EQ.
-  - apply list_str_eqb_eq in EQ. subst t. cbn [resolve_ref]. congruence.
-  - assert (Hto' : Forall useg_ok t).
-    { rewrite E2 in Hto. apply Forall_app in Hto. tauto. }
-    assert (Hfo' : Forall useg_ok b).
-    { rewrite E1 in Hfo. apply Forall_app in Hfo. tauto. }
-    assert (Hcm : Forall useg_ok cm).
-    { rewrite E1 in Hfo. apply Forall_app in Hfo. tauto. }
-    destruct (Nat.eqb (length b) 1 && list_str_eqb t [[]]) eqn:EDOT.
-    + exfalso. apply andb_true_iff in EDOT as [_ E3]. apply list_str_eqb_eq in E3. subst t.
-      inversion Hto' as [|? ? [[Hne _] _] _]; subst. congruence.
+  - apply list_str_eqb_eq in EQ. cbn [resolve_ref]. rewrite Efrom, Eto.
+    rewrite Eb, Ett in EQ. apply app_inj_tail in EQ as [EQ1 EQ2]. subst. reflexivity.
+  - destruct (Nat.eqb (length b) 1 && list_str_eqb t [[]]) eqn:EDOT.
+    + (* the target is the directory of the page: "./" *)
+      apply andb_true_iff in EDOT as [EL E3]. apply list_str_eqb_eq in E3.
+      rewrite Ett in E3. destruct t' as [|x t']; [|destruct t'; discriminate].
+      cbn [app] in E3. inversion E3; subst z2.
+      rewrite Eb in EL. rewrite app_length in EL. cbn [length] in EL. destruct b' as [|y b']; [|apply Nat.eqb_eq in EL; cbn [length] in EL; lia].
+      cbn [resolve_ref]. rewrite split_join by assumption.
+      rewrite Hsplit_from.
+      change (split_on c_slash [c_dot; c_slash]) with [s_dot; []].
+      rewrite app_nil_r.
+      replace (cm ++ [s_dot; []]) with ((cm ++ [s_dot]) ++ [[]]) by (rewrite <- app_assoc; reflexivity).
+      rewrite ends_in_dir_last. cbn [is_nil orb].
+      rewrite <- app_assoc. rewrite norm_push_list by assumption.
+      cbn [app]. rewrite norm_skip_dot, norm_skip_empty. cbn [norm_loop]. rewrite app_nil_r, rev_involutive.
+      rewrite Eto. reflexivity.
     + (* the general case *)
-      assert (Hjt : exists x r0, join [c_slash] t = x :: r0).
-      { destruct t as [|p t]; [congruence|]. inversion Hto' as [|? ? [Hp _] _]; subst.
-        destruct (seg_first_char p Hp) as (x & s' & E & _).
-        destruct (join_first_char (p :: t) x s' t) as [tl0 Ej]; [rewrite E; reflexivity|].
-        exists x, tl0. exact Ej. }
-      destruct Hjt as (x & r0 & Ejt).
+      assert (Hnoslash_t : Forall (fun s => ~ In c_slash s) t).
+      { rewrite Ett. apply Forall_app. split.
+        - eapply Forall_impl; [|exact Ht']. intros a (_ & _ & _ & Ha). exact Ha.
+        - constructor; [|constructor]. destruct Hz2' as [H|(_ & _ & _ & H)]; [subst; intros []|exact H]. }
       assert (Hrel : exists y r1, ups (length b - 1) ++ join [c_slash] t = y :: r1).
-      { destruct (length b - 1)%nat; cbn [ups]; [rewrite Ejt; cbn; eauto|cbn; eauto]. }
+      { destruct (length b - 1)%nat eqn:EN; cbn [ups]; [|cbn; eauto]. cbn [app].
+        rewrite Ett. destruct t' as [|p t'].
+        - cbn [app join]. destruct z2 as [|c z2]; [|eauto].
+          exfalso. rewrite Ett in EDOT. cbn [app] in EDOT. change (list_str_eqb [[]] [[]]) with true in EDOT.
+          rewrite andb_true_r in EDOT. apply Nat.eqb_neq in EDOT. destruct b as [|q b]; [congruence|].
+          cbn [length] in *. lia.
+        - inversion Ht' as [|? ? Hp _]; subst. destruct (seg_first_char p Hp) as (x & s' & E & _).
+          destruct (join_first_char ((p :: t') ++ [z2]) x s' (t' ++ [z2])) as [tl0 Ej]; [rewrite E; reflexivity|].
+          change s_slash with [c_slash] in Ej. rewrite Ej. eauto. }
       destruct Hrel as (y & r1 & Erel).
       unfold resolve_ref. change s_slash with [c_slash]. rewrite Erel. rewrite <- Erel.
-      rewrite split_join by (auto using useg_noslash).
-      rewrite split_ups. rewrite split_join by (auto using useg_noslash).
-      rewrite E1. rewrite removelast_app by assumption.
-      replace (length b - 1)%nat with (length (removelast b)).
-      2:{ destruct b as [|z b]; [congruence|]. clear. revert z. induction b as [|w b IH]; intro z; [reflexivity|].
-          cbn [removelast length] in *. rewrite (IH w). cbn. lia. }
-      rewrite <- app_assoc.
-      pose proof (norm_up_down true cm (removelast b) t 0 []) as N0. cbn [repeat app] in N0.
-      rewrite N0.
-      * cbn [rev app]. rewrite <- E2. reflexivity.
-      * apply useg_segs. assumption.
-      * apply segs_ok_removelast. apply useg_segs. assumption.
-      * apply useg_segs. assumption.
+      rewrite split_join by assumption.
+      rewrite split_ups. rewrite split_join by assumption.
+      rewrite Hsplit_from.
+      replace (length b - 1)%nat with (length b') by (rewrite Eb, app_length; cbn; lia).
+      rewrite Ett. rewrite <- !app_assoc.
+      pose proof (norm_uri_tail cm b' t' z2 Hcm Hb' Ht' Hz2') as N0. cbn zeta in N0.
+      rewrite Eto. f_equal. exact N0.
 Qed.
 
 (* ---------- relfn2path on the spellings of a path ---------- *)
@@ -348,7 +450,7 @@ Definition abs_spelling (tp : list str) : str := c_slash :: join s_slash tp.
 
 (* names that can be written in a link destination as they are *)
 Definition name_ok (s : str) : Prop :=
-  seg_ok s /\ s <> s_bslash /\ ~ In c_hash s /\ ~ In c_colon s.
+  seg_ok s /\ s <> s_bslash /\ ~ In c_hash s /\ ~ In c_colon s /\ ~ In 0 s.
 
 Lemma name_seg l : Forall name_ok l -> segs_ok l.
 Proof. intro H. eapply Forall_impl; [|exact H]. intros a [Ha _]. exact Ha. Qed.
@@ -466,19 +568,6 @@ Proof.
 Qed.
 
 (* ---------- path2doc ---------- *)
-
-Lemma split_last_cons x y r :
-  split_last (x :: y :: r) =
-  match split_last (y :: r) with Some (i, z) => Some (x :: i, z) | None => None end.
-Proof. reflexivity. Qed.
-
-Lemma split_last_app l x : split_last (l ++ [x]) = Some (l, x).
-Proof.
-  induction l as [|y l IH]; [reflexivity|].
-  destruct l as [|y2 l]; [reflexivity|].
-  change ((y :: y2 :: l) ++ [x]) with (y :: y2 :: (l ++ [x])).
-  rewrite split_last_cons. change (y2 :: l ++ [x]) with ((y2 :: l) ++ [x]). rewrite IH. reflexivity.
-Qed.
 
 Theorem path2doc_inside : forall sufs dir name stem,
   first_suffix name sufs = Some stem ->
@@ -624,4 +713,223 @@ Proof.
   destruct (normpath_abs_segs tdn Hne Hns Hfirst) as [HN|HN].
   - rewrite HN, Hnorm. reflexivity.
   - exfalso. rewrite Hnorm in HN. congruence.
+Qed.
+
+(* ---------- os.path.relpath and the rewriting of {include} :relative-docs: ---------- *)
+
+Lemma repeat_rev {A} (x : A) n : rev (repeat x n) = repeat x n.
+Proof.
+  induction n as [|n IH]; [reflexivity|]. cbn [repeat rev]. rewrite IH.
+  clear. induction n as [|n IH]; [reflexivity|]. cbn [repeat app]. rewrite IH. reflexivity.
+Qed.
+
+(* without a root, leading ".." are kept *)
+Lemma norm_rel_ups n : forall m rest,
+  norm_loop false (repeat s_dotdot n ++ rest) (repeat s_dotdot m)
+  = norm_loop false rest (repeat s_dotdot (n + m)).
+Proof.
+  induction n as [|n IH]; intros m rest; [reflexivity|].
+  cbn [repeat app]. 
+  assert (E : norm_loop false (s_dotdot :: repeat s_dotdot n ++ rest) (repeat s_dotdot m)
+              = norm_loop false (repeat s_dotdot n ++ rest) (s_dotdot :: repeat s_dotdot m)).
+  { destruct m; reflexivity. }
+  rewrite E. change (s_dotdot :: repeat s_dotdot m) with (repeat s_dotdot (S m)). rewrite IH.
+  replace (n + S m)%nat with (S n + m)%nat by lia. reflexivity.
+Qed.
+
+Lemma normpath_cons x tl0 :
+  normpath (x :: tl0) =
+  let p := x :: tl0 in
+  let n := initial_slashes p in
+  let path := repeat c_slash n ++ join s_slash (norm_loop (negb (Nat.eqb n 0)) (split_on c_slash p) []) in
+  match path with [] => s_dot | _ => path end.
+Proof. reflexivity. Qed.
+
+Lemma normpath_rel_spelling k r t : segs_ok t -> t <> [] ->
+  normpath (rel_spelling k r t) = rel_spelling 0 r t.
+Proof.
+  intros Ht Hne. destruct (rel_spelling_first k r t Hne Ht) as (x & tl0 & E & Hx).
+  assert (Hn : norm_loop false (split_on c_slash (rel_spelling k r t)) [] = repeat s_dotdot (length r) ++ t).
+  { unfold rel_spelling. change s_slash with [c_slash]. rewrite split_join.
+    2:{ destruct k; [destruct (length r); [cbn; assumption|discriminate]|discriminate]. }
+    2:{ apply noslash_spelling. assumption. }
+    rewrite norm_dots. pose proof (norm_rel_ups (length r) 0 t) as N0. cbn [repeat] in N0. rewrite N0.
+    rewrite norm_push_end by assumption. rewrite repeat_rev, Nat.add_0_r. reflexivity. }
+  assert (Hi : initial_slashes (rel_spelling k r t) = 0%nat).
+  { rewrite E. unfold initial_slashes. cbn [startswith s_slash]. apply N.eqb_neq in Hx. rewrite N.eqb_sym in Hx.
+    rewrite Hx. reflexivity. }
+  rewrite E, normpath_cons. cbn zeta. rewrite <- E. rewrite Hi. cbn [Nat.eqb negb repeat app]. rewrite Hn.
+  destruct (rel_spelling_first 0 r t Hne Ht) as (x0 & tl1 & E0 & _).
+  unfold rel_spelling in E0 |- *. cbn [repeat app] in E0 |- *. rewrite E0. reflexivity.
+Qed.
+
+Lemma strip_common_all_app pre a b : strip_common_all (pre ++ a) (pre ++ b) = strip_common_all a b.
+Proof. induction pre as [|p pre IH]; [reflexivity|]. cbn [app strip_common_all]. rewrite str_eqb_refl. exact IH. Qed.
+
+Lemma strip_common_all_spec : forall a b,
+  exists c, a = c ++ fst (strip_common_all a b) /\ b = c ++ snd (strip_common_all a b).
+Proof.
+  induction a as [|x a IH]; intros b; [exists []; split; reflexivity|].
+  destruct b as [|y b]; [exists []; split; reflexivity|].
+  cbn [strip_common_all]. destruct (str_eqb x y) eqn:E.
+  - apply str_eqb_eq in E. subst y. destruct (IH b) as (c & H1 & H2). exists (x :: c). cbn [app].
+    split; f_equal; assumption.
+  - exists []. split; reflexivity.
+Qed.
+
+Lemma nonempty_segs_abs segs : segs_ok segs -> segs <> [] ->
+  nonempty_segs (c_slash :: join s_slash segs) = segs.
+Proof.
+  intros H Hne. unfold nonempty_segs.
+  change (c_slash :: join s_slash segs) with ([] ++ c_slash :: join s_slash segs).
+  rewrite split_on_app by (intros []). change s_slash with [c_slash]. rewrite split_join.
+  - cbn [filter is_nil negb]. clear Hne. induction segs as [|x l IH]; [reflexivity|]. inversion H; subst.
+    cbn [filter]. destruct x; [destruct H2 as (Hx & _); congruence|]. cbn [is_nil negb]. f_equal. apply IH. assumption.
+  - assumption.
+  - eapply Forall_impl; [|exact H]. intros a (_ & _ & _ & Ha). exact Ha.
+Qed.
+
+Lemma normpath_abs_ok segs : segs_ok segs -> segs <> [] ->
+  normpath (c_slash :: join s_slash segs) = c_slash :: join s_slash segs.
+Proof.
+  intros H Hne.
+  assert (Hns : Forall (fun s => ~ In c_slash s) segs).
+  { eapply Forall_impl; [|exact H]. intros a (_ & _ & _ & Ha). exact Ha. }
+  assert (Hfirst : exists x0 s0 rest, segs = (x0 :: s0) :: rest /\ x0 <> c_slash).
+  { destruct segs as [|p segs]; [congruence|]. inversion H; subst.
+    destruct (seg_first_char p) as (x0 & s0 & E0 & H0); [assumption|]. exists x0, s0, segs. rewrite E0. split; [reflexivity|assumption]. }
+  destruct (normpath_abs_segs segs Hne Hns Hfirst) as [HN|HN]; rewrite norm_ok in HN by assumption; [exact HN|congruence].
+Qed.
+
+(* The destination written in an included file (directory cm ++ r below srcdir, spelled
+   relative to that directory) is rewritten by _handle_relative_docs into a spelling of the same
+   file relative to the including document's directory sdir. *)
+Theorem relpath_rewrite : forall srcdir cm r t sdir k,
+  segs_ok srcdir -> srcdir <> [] -> segs_ok cm -> segs_ok r -> segs_ok t -> t <> [] -> segs_ok sdir ->
+  (forall x, sdir <> (cm ++ t) ++ x) ->
+  exists c' r' t', sdir = c' ++ r' /\ cm ++ t = c' ++ t' /\ t' <> [] /\
+    relpath (pjoin (c_slash :: join s_slash (srcdir ++ cm ++ r)) [normpath (rel_spelling k r t)])
+            (c_slash :: join s_slash (srcdir ++ sdir))
+    = rel_spelling 0 r' t'.
+Proof.
+  intros srcdir cm r t sdir k Hs Hsne Hc Hr Ht Hne Hsd Hnp.
+  destruct (strip_common_all_spec sdir (cm ++ t)) as (c' & E1 & E2).
+  destruct (strip_common_all sdir (cm ++ t)) as [r' t'] eqn:ES. cbn [fst snd] in *.
+  assert (Ht' : t' <> []).
+  { intro E. subst t'. rewrite app_nil_r in E2. apply (Hnp r'). rewrite E2. exact E1. }
+  exists c', r', t'. repeat split; try assumption.
+  rewrite normpath_rel_spelling by assumption.
+  (* the joined path *)
+  destruct (rel_spelling_first 0 r t Hne Ht) as (x & tl0 & E & Hx).
+  assert (HA : segs_ok (srcdir ++ cm ++ r)) by (repeat (apply segs_ok_app; split); assumption).
+  assert (HAne : srcdir ++ cm ++ r <> []) by (destruct srcdir; [congruence|discriminate]).
+  destruct (exists_last HAne) as (A0 & lastseg & EA).
+  assert (Hlast : seg_ok lastseg). { rewrite EA in HA. apply segs_ok_app in HA as [_ HA]. inversion HA; assumption. }
+  destruct (seg_last_char lastseg Hlast) as (ls' & xl & Els & Hxl).
+  assert (Hend : endswith (c_slash :: join s_slash (srcdir ++ cm ++ r)) s_slash = false).
+  { rewrite EA, Els. destruct (join_last_char A0 ls' xl) as [q Hq].
+    match goal with |- endswith ?X _ = _ =>
+      assert (HX : X = (c_slash :: q) ++ [xl]) by (cbn [app]; f_equal; exact Hq); rewrite HX end.
+    rewrite endswith_slash_last. apply N.eqb_neq. intro Ec. apply Hxl. symmetry. exact Ec. }
+  assert (Hrel : startswith (rel_spelling 0 r t) s_slash = false).
+  { rewrite E. cbn [startswith s_slash]. apply N.eqb_neq in Hx. rewrite N.eqb_sym in Hx. rewrite Hx. reflexivity. }
+  cbn [pjoin]. rewrite Hrel. cbn [is_nil orb]. rewrite Hend.
+  set (sp := repeat s_dotdot (length r) ++ t).
+  assert (Hsp : sp <> []) by (unfold sp; destruct (length r); [cbn; assumption|discriminate]).
+  assert (Hstr : (c_slash :: join s_slash (srcdir ++ cm ++ r)) ++ s_slash ++ rel_spelling 0 r t
+                 = c_slash :: join s_slash ((srcdir ++ cm ++ r) ++ sp)).
+  { rewrite (join_app s_slash (srcdir ++ cm ++ r) sp) by assumption. reflexivity. }
+  rewrite Hstr. unfold relpath.
+  assert (Hnorm : norm_loop true ((srcdir ++ cm ++ r) ++ sp) [] = srcdir ++ cm ++ t).
+  { unfold sp. pose proof (norm_up_down true (srcdir ++ cm) r t 0 []) as N0. cbn [repeat app rev] in N0.
+    rewrite <- !app_assoc in N0. rewrite <- !app_assoc. apply N0; try assumption. apply segs_ok_app. split; assumption. }
+  assert (Hp1 : normpath (c_slash :: join s_slash ((srcdir ++ cm ++ r) ++ sp)) = c_slash :: join s_slash (srcdir ++ cm ++ t)).
+  { assert (Hne2 : (srcdir ++ cm ++ r) ++ sp <> []) by (destruct srcdir; [congruence|discriminate]).
+    assert (Hns : Forall (fun s => ~ In c_slash s) ((srcdir ++ cm ++ r) ++ sp)).
+    { apply Forall_app. split; [eapply Forall_impl; [|exact HA]; intros a (_ & _ & _ & Ha); exact Ha|].
+      unfold sp. apply (noslash_spelling 0 (length r) t Ht). }
+    assert (Hfirst : exists x0 s0 rest, (srcdir ++ cm ++ r) ++ sp = (x0 :: s0) :: rest /\ x0 <> c_slash).
+    { destruct srcdir as [|p0 srcdir]; [congruence|]. inversion Hs; subst.
+      destruct (seg_first_char p0) as (x0 & s0 & E0 & H0); [assumption|]. exists x0, s0. eexists. cbn [app]. rewrite E0. split; [reflexivity|assumption]. }
+    destruct (normpath_abs_segs _ Hne2 Hns Hfirst) as [HN|HN]; rewrite Hnorm in HN; [exact HN|].
+    destruct srcdir; [congruence|discriminate]. }
+  rewrite Hp1.
+  rewrite normpath_abs_ok; [|apply segs_ok_app; split; assumption|destruct srcdir; [congruence|discriminate]].
+  rewrite !nonempty_segs_abs;
+    [|apply segs_ok_app; split; [assumption|apply segs_ok_app; split; assumption]|destruct srcdir; [congruence|discriminate]
+     |apply segs_ok_app; split; assumption|destruct srcdir; [congruence|discriminate]].
+  rewrite strip_common_all_app. rewrite ES.
+  unfold rel_spelling. cbn [repeat app].
+  destruct (repeat s_dotdot (length r') ++ t') eqn:ER; [|reflexivity].
+  exfalso. destruct (length r'); cbn in ER; [congruence|discriminate].
+Qed.
+
+(* ---------- the page URIs of the html and dirhtml builders ---------- *)
+
+Lemma join_last_append sep l s x : join sep (l ++ [s]) ++ x = join sep (l ++ [s ++ x]).
+Proof.
+  induction l as [|p l IH]; [reflexivity|].
+  destruct l as [|q l].
+  - cbn [app join]. rewrite <- !app_assoc. reflexivity.
+  - change ((p :: q :: l) ++ [s]) with (p :: q :: (l ++ [s])).
+    change ((p :: q :: l) ++ [s ++ x]) with (p :: q :: (l ++ [s ++ x])).
+    rewrite !join_cons. change (q :: l ++ [s]) with ((q :: l) ++ [s]). change (q :: l ++ [s ++ x]) with ((q :: l) ++ [s ++ x]).
+    rewrite <- IH. rewrite <- !app_assoc. reflexivity.
+Qed.
+
+Lemma useg_ok_html z : useg_ok z -> useg_ok (z ++ s_html).
+Proof.
+  intros [(H1 & H2 & H3 & H4) H5]. destruct z as [|c z]; [congruence|].
+  split; [repeat split|].
+  - discriminate.
+  - intro E. apply (f_equal (@length N)) in E. rewrite app_length in E. cbn in E. lia.
+  - intro E. apply (f_equal (@length N)) in E. rewrite app_length in E. cbn in E. lia.
+  - intro Hin. apply in_app_or in Hin as [Hin|Hin]; [contradiction|]. cbn in Hin.
+    repeat (destruct Hin as [Hin|Hin]; [discriminate|]). destruct Hin.
+  - intro Hin. apply in_app_or in Hin as [Hin|Hin]; [contradiction|]. cbn in Hin.
+    repeat (destruct Hin as [Hin|Hin]; [discriminate|]). destruct Hin.
+Qed.
+
+(* the URI of a document's page, as a list of segments *)
+Definition page_uri_segs (dirhtml : bool) (dn : list str) : list str :=
+  match split_last dn with
+  | Some (front, z) =>
+      if dirhtml then (if str_eqb z s_index then front ++ [[]] else dn ++ [[]])
+      else front ++ [z ++ s_html]
+  | None => [[]]
+  end.
+
+Lemma target_uri_segs dirhtml dn : dn <> [] -> Forall useg_ok dn ->
+  target_uri dirhtml (join s_slash dn) = join s_slash (page_uri_segs dirhtml dn)
+  /\ uri_ok (page_uri_segs dirhtml dn).
+Proof.
+  intros Hne Hok. destruct (exists_last Hne) as (front & z & E). subst dn.
+  assert (Hf : Forall useg_ok front) by (apply Forall_app in Hok; tauto).
+  assert (Hz : useg_ok z) by (apply Forall_app in Hok as [_ Hok]; inversion Hok; assumption).
+  unfold page_uri_segs, target_uri. rewrite split_last_app. destruct dirhtml.
+  - change s_slash with [c_slash]. rewrite split_join by (try (destruct front; discriminate); apply useg_noslash; assumption).
+    rewrite split_last_app. destruct (str_eqb z s_index).
+    + split.
+      * destruct front; reflexivity.
+      * exists front, []. repeat split; auto.
+    + split.
+      * symmetry. etransitivity; [apply join_app_single; destruct front; discriminate|]. rewrite app_nil_r. reflexivity.
+      * exists (front ++ [z]), []. repeat split; auto.
+  - split.
+    + apply join_last_append.
+    + exists front, (z ++ s_html). repeat split; auto. right. apply useg_ok_html. assumption.
+Qed.
+
+(* for both builders and documents at any depth: resolving the relative URI that make_refnode
+   computes against the URI of the referencing page gives the URI of the target page *)
+Theorem builder_uri_roundtrip : forall dirhtml (from to : list str),
+  from <> [] -> to <> [] -> Forall useg_ok from -> Forall useg_ok to ->
+  resolve_ref (target_uri dirhtml (join s_slash from))
+              (get_relative_uri dirhtml (join s_slash from) (join s_slash to))
+  = target_uri dirhtml (join s_slash to).
+Proof.
+  intros dirhtml from to Hf Ht Hfo Hto. unfold get_relative_uri.
+  destruct (target_uri_segs dirhtml from Hf Hfo) as [E1 U1].
+  destruct (target_uri_segs dirhtml to Ht Hto) as [E2 U2].
+  rewrite E1, E2. apply relative_uri_roundtrip; assumption.
 Qed.
